@@ -1,6 +1,6 @@
 (* C13, first clause: visualize is total on what the dumper writes (show = all / untrusted, and the raw row generator). *)
 From Skv Require Import PyStrFacts CodecGuards CodecWfFacts PyValInd NodeInd TreeIds TreeWf GraphAudit ConstructFacts Families.
-From Skv Require Import CodecMemberFacts CodecTreeFacts CodecShareFacts VisTotalPre.
+From Skv Require Import CodecMemberFacts CodecTreeFacts CodecShareFacts CodecFacts CodecRootFacts VisTotalPre VisTotalLocal.
 From Skv Require Import Unsafe UnsafeFacts AuditFacts Walk WalkFacts.
 From Coq Require Import Lia.
 
@@ -714,3 +714,85 @@ Section GoodGraph.
       eapply fits_mono; [apply (IH (k - 1)%nat); [lia|eapply sub_child; eauto|apply Hall; exact Hc]|lia].
   Qed.
 End GoodGraph.
+
+(* ================= the tree of a dumped value of the fragment; visualize on it ================= *)
+Lemma fuel_bounds : (default_fuel <= 400)%nat /\ (801 <= walk_fuel)%nat /\ (801 <= unsafe_fuel)%nat.
+Proof. repeat split; apply Nat.leb_le; vm_compute; reflexivity. Qed.
+
+Lemma filter_all {A} (l : list A) : filter (fun _ => true) l = l.
+Proof. induction l as [|x l IH]; [reflexivity|]. cbn [filter]. rewrite IH. reflexivity. Qed.
+
+Section Dumped.
+  Variables (F : cfacts) (D : denv) (base : Z) (v : pval) (E : env) (a : archive).
+  Hypothesis Hcur : e_cur E = dn_cur D.
+  Hypothesis Hreg : reg_ok (e_reg E) (e_cur E) = true.
+  Hypothesis Hsane : facts_sane F = true.
+  Hypothesis Hg : c05_guard F D base v = true.
+  Hypothesis Hd : dumps_model D base v = Ok a.
+  Hypothesis Hmem : e_members E = map fst (a_members a).
+  Let Objs : pval -> Prop := fun w => In w (objs D v).
+
+  Lemma dumped_tree : exists t m,
+    root_tree E (a_schema a) = Ok (t, m) /\ good base Objs (need v) t /\ notleaf t = true /\ (need v <= default_fuel)%nat
+    /\ (forall x y, Objs x -> Objs y -> pid x = pid y -> x = y) /\ (forall x, Objs x -> (0 < pid x < base)%Z).
+  Proof.
+    pose proof Hg as Hg0. unfold c05_guard in Hg0. apply andb_prop in Hg0. destruct Hg0 as [Hg0 Hn]. apply andb_prop in Hg0. destruct Hg0 as [Hf Hw].
+    apply Nat.leb_le in Hn. destruct (objs_wf_fun _ _ Hw) as [Ofun Oid].
+    pose proof (fragb_vok D F (objs D v) v Hf (fun y Hy => Hy)) as Hv.
+    pose proof Hd as Hd0. unfold dumps_model in Hd0.
+    destruct (get_state D v (init_dst base)) as [[j st]|] eqn:E0; [|discriminate Hd0]. cbn [bind] in Hd0.
+    destruct (root_fields _ _ _ _ _ E0) as [kv [-> [Hp _]]].
+    destruct (d_late st); [discriminate Hd0|].
+    assert (Ha : a = {| a_schema := JObj (kv ++ [(CodecDump.K "protocol", JInt (dn_cur D)); (CodecDump.K "_skops_version", JStr (dn_version D))]);
+                        a_members := d_members st |}) by (injection Hd0 as Hd1; symmetry; exact Hd1).
+    rewrite Ha in Hmem. cbn [a_members] in Hmem.
+    set (C := {| c_env := E; c_members := d_members st; c_namedtuples := f_namedtuples F; c_generic := f_generic F;
+                 c_missing := f_missing F; c_hkinds := f_hkinds F |}).
+    destruct (share_roundtrip D F C base v _ st (conj eq_refl eq_refl) eq_refl eq_refl Hmem Hsane Hreg Hg E0) as [_ Hl].
+    unfold load_state in Hl. cbn [c_env C] in Hl.
+    destruct (get_tree default_fuel E (JInt (e_cur E)) [] (SOne (GetTree.K "root")) [] (JObj kv)) as [[t m']|] eqn:Ht; [|discriminate Hl].
+    exists t, m'. split.
+    { rewrite Ha. cbn [a_schema]. unfold root_tree.
+      assert (Hpr : jindex (JObj (kv ++ [(CodecDump.K "protocol", JInt (dn_cur D)); (CodecDump.K "_skops_version", JStr (dn_version D))])) (GetTree.K "protocol")
+                    = Ok (JInt (dn_cur D))).
+      { cbn [jindex]. rewrite (dget_app_none _ _ _ Hp). reflexivity. }
+      rewrite Hpr. cbn [bind]. rewrite get_tree_ext. rewrite <- Hcur. exact Ht. }
+    destruct (vok_good D F E base Objs Oid Hreg v Hv _ _ _ E0 ltac:(cbn; lia)) as [_ H].
+    destruct (H default_fuel [] (SOne (GetTree.K "root")) t m' Ht ltac:(intros h Hh; discriminate Hh)) as [_ [Hgood Hnl]].
+    split; [exact Hgood|split; [exact Hnl|split; [exact Hn|split; [exact Ofun|exact Oid]]]].
+  Qed.
+
+  Variable skipped : list pstr.
+  Hypothesis Hskip : mem (s "_general.SliceNode") skipped = true.
+  Variable T : trust.
+
+  (* the row generator completes; the default sink completes for show = all (every row) and show = untrusted
+     (the root and the rows that are not fully safe) *)
+  Theorem visualize_total_dumped : exists r rs,
+    visualize_rows E skipped (a_schema a) T = Ok (r :: rs)
+    /\ visualize E skipped (a_schema a) T ShowAll = Ok (r :: rs)
+    /\ visualize E skipped (a_schema a) T ShowUntrusted = Ok (r :: filter (fun x => negb (r_safe x)) rs)
+    /\ r_level r = O.
+  Proof.
+    destruct dumped_tree as [t [m [Hrt [Hgood [Hnl [Hn [Ofun Oid]]]]]]].
+    pose proof (root_tree_ids_unique _ _ _ _ Hrt) as ND. pose proof (root_refs_resolve _ _ _ _ Hrt) as Hres.
+    pose proof (good_nice base Objs t (need v) Hgood) as Hnice.
+    destruct fuel_bounds as [B1 [B2 B3]].
+    assert (Hfit : fits t 801 t).
+    { eapply fits_mono; [apply (good_fits base Objs Ofun Oid t Hres (need v) Hgood (need v) t (sub_refl _) Hgood)|lia]. }
+    destruct t as [h subs|sl i|sl l]; [|destruct (Hres sl i (sub_refl _)) as [x Hx]; discriminate Hx|discriminate Hnl].
+    set (t := Node h subs) in *.
+    set (st := walk E T skipped t walk_fuel [] (s "root") 0 false t).
+    assert (Hst : visualize_stream E skipped (a_schema a) T = Ok st) by (unfold visualize_stream; rewrite Hrt; reflexivity).
+    destruct (walk_ok E T skipped t ND Hnice Hskip 801 t (sub_refl _) Hfit eq_refl B3 walk_fuel [] (s "root") 0%nat false B2 (harmless_nil t t)) as [[W1 W2] _].
+    fold st in W1, W2.
+    destruct (fst st) as [|r rs] eqn:Hfst; [exfalso; apply (walk_node_nonempty E T skipped t walk_fuel [] (s "root") 0%nat false h subs W1); exact Hfst|].
+    assert (Hr0 : r_level r = O) by (inversion W2; assumption).
+    assert (HW : WOK (r_level r) st) by (rewrite Hr0; split; [exact W1|rewrite Hfst; exact W2]).
+    exists r, rs. split; [|split; [|split; [|exact Hr0]]].
+    - unfold visualize_rows. rewrite Hst. cbn [bind]. rewrite W1, Hfst. reflexivity.
+    - unfold visualize. rewrite Hst. cbn [bind]. rewrite (traverse_all_forest ShowAll st r rs sh_ok_all HW Hfst).
+      change (visible ShowAll) with (fun _ : row => true). rewrite filter_all. reflexivity.
+    - unfold visualize. rewrite Hst. cbn [bind]. rewrite (traverse_all_forest ShowUntrusted st r rs sh_ok_untrusted HW Hfst). reflexivity.
+  Qed.
+End Dumped.
